@@ -380,7 +380,10 @@ Step(s, e) ==
              np   == [b \in DOMAIN s.prio |->
                         IF /\ b \in cur /\ b \notin s.shown /\ b \in DOMAIN s.bars /\ s.bars[b].after \in DOMAIN s.prio
                            /\ ~(b \in DOMAIN s.prioAt /\ s.frames # <<>> /\ s.prioAt[b] > s.frames[Len(s.frames)].seq)
-                        THEN s.prio[s.bars[b].after] ELSE s.prio[b]]
+                        THEN (IF s.frames # <<>> /\ s.bars[b].after \in DOMAIN s.frames[Len(s.frames)].prio
+                              THEN s.frames[Len(s.frames)].prio[s.bars[b].after]   \* as of the predecessor's last frame
+                              ELSE s.prio[s.bars[b].after])
+                        ELSE s.prio[b]]
          IN
          [s EXCEPT !.frames = Append(@, [groups |-> [i \in DOMAIN e.groups |->
                                                         [b |-> e.groups[i].b, cur |-> e.groups[i].cur,
